@@ -286,8 +286,23 @@ def decompose_and_order(graph, component, component_name, bo_start=0):
     # I save tags as key:(type, value), so "SO":(i, '123')
     coordinates = list(int(new_graph[n].tags["SO"][1]) for n in traversal_scaffold_only)
 
-    # make sure that the traversal is in ascending order
-    if coordinates[0] > coordinates[-1]:
+    # make sure that the traversal is in ascending order. With fewer than two scaffold nodes their
+    # coordinates cannot orient the chain, so use the first and last element of the traversal that
+    # has a coordinate on the reference (for a bubble: the smallest SO of its reference nodes)
+    ref_name = new_graph[traversal_scaffold_only[0]].tags["SN"]
+
+    def ref_coordinate(node_name):
+        if scaffold_node_types[node_name] == "s":
+            return int(new_graph[node_name].tags["SO"][1])
+        on_ref = [
+            int(new_graph[n].tags["SO"][1])
+            for n in bubbles[int(node_name.split("\t")[1])]
+            if new_graph[n].tags.get("SN") == ref_name
+        ]
+        return min(on_ref) if on_ref else None
+
+    element_coordinates = [c for c in map(ref_coordinate, traversal) if c is not None]
+    if element_coordinates[0] > element_coordinates[-1]:
         traversal.reverse()
         traversal_scaffold_only.reverse()
         coordinates.reverse()
